@@ -287,4 +287,106 @@ theorem C12_bf_overlap_witness :
     ∧ (bfSchedule ⟨4, 4, 200⟩ (bfVisibleAtHandOver false ⟨4, 4, 200⟩ overlapWitness)).2 = [.fwd 7 1]
     ∧ (bfSchedule ⟨4, 4, 200⟩ (bfVisibleAtHandOver true ⟨4, 4, 200⟩ overlapWitness)).2 = [] := by decide
 
+/-! ### one state notification naming several pilots (round 15) -/
+
+/-- a pass over a wait pool with an eligible pilot forwards at least the first waiting task -/
+theorem C12_bf_pass_progress (c : BFCfg) (s : S) (t : Task) (ts : List Task)
+    (hw : s.wait = t :: ts) (he : eligiblePids c s ≠ []) :
+    ∃ pid, Out.fwd t.uid pid ∈ (bfSchedule c s).2 := by
+  have hp : s.pids ≠ [] := by
+    intro h; apply he; simp [eligiblePids, h]
+  unfold bfSchedule
+  rw [if_neg hp, if_neg he, hw]
+  cases hel : eligiblePids c s with
+  | nil => exact absurd hel he
+  | cons pid rest =>
+    have hmem : pid ∈ eligiblePids c s := by rw [hel]; simp
+    obtain ⟨_, hE⟩ := mem_filter.mp hmem
+    cases hf : findPilot s.pilots pid with
+    | none => rw [hf] at hE; simp at hE
+    | some p =>
+      rw [hf] at hE
+      simp only [bfEligible, Bool.and_eq_true, decide_eq_true_eq] at hE
+      have hu : p.used ≤ (p.hwm : Int) := by omega
+      refine ⟨pid, ?_⟩
+      simp only [bfLoop, bfPlace, hf, hu, if_true, reduceCtorEq, if_false]
+      rcases bfLoop _ _ ts with ⟨ps', un, outs⟩
+      simp
+
+theorem find_map_set (ps : List Pilot) (p' : Pilot) :
+    (ps.map (fun q => if q.pid = p'.pid then p' else q)).find? (fun q => q.pid = p'.pid)
+      = (ps.find? (fun q => q.pid = p'.pid)).map (fun _ => p') := by
+  induction ps with
+  | nil => rfl
+  | cons q qs ih =>
+    by_cases h : q.pid = p'.pid
+    · simp [h]
+    · simp [h, ih]
+
+theorem stateOf_touchPilot (ps : List Pilot) (pid : Nat) (v : Option Nat) : stateOf (touchPilot ps pid v) pid = v := by
+  unfold stateOf touchPilot
+  cases hf : findPilot ps pid with
+  | none =>
+    simp only [findPilot] at hf ⊢
+    simp [List.find?_append, hf]
+  | some p =>
+    have hp : p.pid = pid := by
+      have := List.find?_some hf
+      simpa using this
+    have hm : p ∈ ps := List.mem_of_find?_eq_some hf
+    subst hp
+    have hany : (ps.any (fun q => q.pid = ({ p with state := v } : Pilot).pid)) = true := by
+      simp only [List.any_eq_true, decide_eq_true_eq]
+      exact ⟨p, hm, rfl⟩
+    simp only [setPilot, hany, if_true, findPilot]
+    have h2 := find_map_set ps { p with state := v }
+    simp only [findPilot] at hf
+    simp only at h2
+    rw [h2, hf]
+    rfl
+
+/-- a single-pilot notification is the `pilotState` step the histories of this file range over -/
+theorem C12_bulk_single (c : BFCfg) (execVal : Nat) (s : S) (pid : Nat) (v : Option Nat) :
+    bfPilotStates true c s [(pid, v)] = bfStep c execVal s (.pilotState pid v) := by
+  unfold bfPilotStates bfStep
+  simp only [touchAll]
+  show _ = if stateOf s.pilots pid = v then _ else if inWindow c v = true then _ else _
+  by_cases h : stateOf s.pilots pid = v
+  · simp [h, bfTrigger]
+  · simp only [h, if_false, bfTrigger, if_true, List.any_cons, List.any_nil, Bool.or_false, stateOf_touchPilot]
+
+/-- **C12 for notifications that name several pilots**: with the loop of `Backfilling.update_pilots` as the translator
+    reads it from the source (`Gen.bfUpdateAnyEligible`), a notification after which SOME pilot whose state changed is
+    inside the window triggers a pass wherever in the notification that pilot stands; if a task waits and an added
+    pilot inside the window has room, at least the first waiting task is forwarded -/
+theorem C12_bulk_notification_progress (c : BFCfg) (s : S) (ups : List (Nat × Option Nat)) (t : Task) (ts : List Task)
+    (hw : s.wait = t :: ts)
+    (hch : ∃ pid ∈ (touchAll s.pilots ups).2, inWindow c (stateOf (touchAll s.pilots ups).1 pid) = true)
+    (he : eligiblePids c { s with pilots := (touchAll s.pilots ups).1 } ≠ []) :
+    ∃ pid, Out.fwd t.uid pid ∈ (bfPilotStates Gen.bfUpdateAnyEligible c s ups).2.1 := by
+  have e : Gen.bfUpdateAnyEligible = true := by decide
+  rw [e]
+  unfold bfPilotStates
+  rcases hta : touchAll s.pilots ups with ⟨ps, ch⟩
+  rw [hta] at hch he
+  have htr : bfTrigger true c ps ch = true := by
+    simp only [bfTrigger, if_true, List.any_eq_true]
+    exact hch
+  simp only [htr, if_true]
+  obtain ⟨pid, hpid⟩ := C12_bf_pass_progress c { s with pilots := ps } t ts hw he
+  rcases hb : bfSchedule c { s with pilots := ps } with ⟨s', outs⟩
+  rw [hb] at hpid
+  exact ⟨pid, hpid⟩
+
+/-- the position matters to the alternative: were the last updated pilot to decide, the notification
+    [pilot 1 becomes ACTIVE, pilot 0 still pending] would leave the task waiting although pilot 1 has room -/
+def bulkWitness : S :=
+  { pilots := [⟨0, .added, some 2, true, 4, 8, 0, [], []⟩, ⟨1, .added, some 2, true, 4, 8, 0, [], []⟩], pids := [0, 1],
+    wait := [⟨7, none, 1⟩] }
+
+theorem C12_bulk_notification_witness :
+    (bfPilotStates true  ⟨4, 4, 200⟩ bulkWitness [(1, some 4), (0, some 3)]).2.1 = [.fwd 7 1]
+    ∧ (bfPilotStates false ⟨4, 4, 200⟩ bulkWitness [(1, some 4), (0, some 3)]).2.1 = []
+    ∧ (bfPilotStates false ⟨4, 4, 200⟩ bulkWitness [(0, some 3), (1, some 4)]).2.1 = [.fwd 7 1] := by decide
+
 end RPVerif.C12
